@@ -2404,6 +2404,38 @@ coap_io_do_epoll(coap_context_t *ctx, struct epoll_event *events, size_t nevents
   coap_lock_unlock(ctx);
 }
 
+#if COAP_THREAD_SAFE && defined(COAP_EPOLL_SUPPORT)
+/*
+ * The global lock is released while an application handler runs, so a
+ * socket reported by epoll_wait() may belong to an endpoint or session that
+ * another thread has freed by the time its event is looked at.  Only the
+ * address is compared here, @p sock is not dereferenced.
+ */
+static int
+coap_epoll_sock_is_live(coap_context_t *ctx, const coap_socket_t *sock) {
+  coap_session_t *s, *rtmp;
+#if COAP_SERVER_SUPPORT
+  coap_endpoint_t *ep;
+
+  LL_FOREACH(ctx->endpoint, ep) {
+    if (&ep->sock == sock)
+      return 1;
+    SESSIONS_ITER(ep->sessions, s, rtmp) {
+      if (&s->sock == sock)
+        return 1;
+    }
+  }
+#endif /* COAP_SERVER_SUPPORT */
+#if COAP_CLIENT_SUPPORT
+  SESSIONS_ITER(ctx->sessions, s, rtmp) {
+    if (&s->sock == sock)
+      return 1;
+  }
+#endif /* COAP_CLIENT_SUPPORT */
+  return 0;
+}
+#endif /* COAP_THREAD_SAFE && COAP_EPOLL_SUPPORT */
+
 /*
  * While this code in part replicates coap_io_do_io_lkd(), doing the functions
  * directly saves having to iterate through the endpoints / sessions.
@@ -2424,6 +2456,12 @@ coap_io_do_epoll_lkd(coap_context_t *ctx, struct epoll_event *events, size_t nev
   for (j = 0; j < nevents; j++) {
     coap_socket_t *sock = (coap_socket_t *)events[j].data.ptr;
 
+#if COAP_THREAD_SAFE
+    if (sock && !coap_epoll_sock_is_live(ctx, sock)) {
+      /* Freed by another thread since epoll_wait() reported it */
+      continue;
+    }
+#endif /* COAP_THREAD_SAFE */
     /* Ignore 'timer trigger' ptr  which is NULL */
     if (sock) {
 #if COAP_SERVER_SUPPORT
